@@ -191,5 +191,27 @@ func recordOrigins(ff *core.FuncFacts, a ssa.Value) []core.Origin {
 			return out
 		}
 	}
-	return ff.Origins(a)
+	var out []core.Origin
+	for _, o := range ff.Origins(a) {
+		if o.Kind == "local" && o.Path == "" {
+			if u, ok := o.Val.(*ssa.UnOp); ok {
+				if al, ok := u.X.(*ssa.Alloc); ok && al.Referrers() != nil {
+					// a local copy that was handed to callees by pointer: it is still the record
+					// that was stored into it (parameter spill / loaded snapshot)
+					n := 0
+					for _, r := range *al.Referrers() {
+						if st, ok := r.(*ssa.Store); ok && st.Addr == ssa.Value(al) {
+							out = append(out, ff.Origins(st.Val)...)
+							n++
+						}
+					}
+					if n > 0 {
+						continue
+					}
+				}
+			}
+		}
+		out = append(out, o)
+	}
+	return out
 }
